@@ -40,24 +40,29 @@ PROPS["C02"] = {
         K("c04_seal_fresh_nonce_s0_n1000", "envelope window arithmetic, 1000-byte payload", T),
         K("c04_seal_fresh_nonce_s1_n9000", "envelope window arithmetic, 9000-byte payload", T),
         K("c04_seal_fresh_nonce_s2_n65400", "envelope window arithmetic, 65400-byte payload", T),
-        K("c04_limit56_roundtrip_s0_n4", "round trip byte-identical iff counter fits 56 bits and halves are opposite (any cipher)"),
-        K("c04_limit56_roundtrip_s1_n0", "round trip, empty payload, slot 1", T),
-        K("c04_limit56_roundtrip_s2_n8", "round trip, 8-byte payload, slot 2", T),
-        K("c02_tamper_keyid_s0", "any rewrite of the key-id byte is dropped", role="c02_tamper_keyid"),
-        K("c02_tamper_keyid_s3", "any rewrite of the key-id byte is dropped (slot 3)", T, role="c02_tamper_keyid"),
-        K("c02_tamper_ctr1", "any rewrite of counter byte 1 is dropped"),
-        K("c02_tamper_ctr2", "any rewrite of counter byte 2 is dropped", T),
-        K("c02_tamper_ctr3", "any rewrite of counter byte 3 is dropped", T),
-        K("c02_tamper_ctr4", "any rewrite of counter byte 4 is dropped", T),
-        K("c02_tamper_ctr5", "any rewrite of counter byte 5 is dropped", T),
-        K("c02_tamper_ctr6", "any rewrite of counter byte 6 is dropped", T),
-        K("c02_tamper_ctr7", "any rewrite of counter byte 7 is dropped"),
-        K("c02_tamper_ciphertext", "any rewrite of a ciphertext byte is dropped"),
-        K("c02_tamper_tag", "any rewrite of a tag byte is dropped"),
-        K("c02_truncated_n8_cut1", "truncation by one byte is dropped"),
-        K("c02_truncated_n8_cut8", "truncation by eight bytes is dropped", T),
-        K("c02_truncated_n4_cut3", "truncation by three bytes is dropped", T),
-        K("c02_reflect_and_cross_connection", "reflected datagram and datagram of another connection are dropped"),
+        K("c02_recv_genuine_s0_n4", "untouched datagram: accepted iff counter fits 56 bits and sender half is opposite; payload byte-identical"),
+        K("c02_recv_genuine_s1_n1", "same, slot 1, 1-byte payload", T),
+        K("c02_recv_genuine_s2_n8", "same, slot 2, 8-byte payload", T),
+        K("c02_recv_genuine_s3_n2", "same, slot 3, 2-byte payload", T),
+        K("c02_recv_tamper_keyid_s0", "any rewrite of the key-id byte is dropped", role="c02_recv_tamper_keyid"),
+        K("c02_recv_tamper_keyid_s3", "any rewrite of the key-id byte is dropped (slot 3)", T, role="c02_recv_tamper_keyid"),
+        K("c02_recv_tamper_ctr1", "any rewrite of counter byte 1 is dropped"),
+        K("c02_recv_tamper_ctr2", "any rewrite of counter byte 2 is dropped", T),
+        K("c02_recv_tamper_ctr3", "any rewrite of counter byte 3 is dropped", T),
+        K("c02_recv_tamper_ctr4", "any rewrite of counter byte 4 is dropped", T),
+        K("c02_recv_tamper_ctr5", "any rewrite of counter byte 5 is dropped", T),
+        K("c02_recv_tamper_ctr6", "any rewrite of counter byte 6 is dropped", T),
+        K("c02_recv_tamper_ctr7", "any rewrite of counter byte 7 is dropped"),
+        K("c02_recv_tamper_ct0", "any rewrite of the first ciphertext byte is dropped"),
+        K("c02_recv_tamper_ct3", "any rewrite of the last ciphertext byte is dropped", T),
+        K("c02_recv_tamper_tag0", "any rewrite of the first tag byte is dropped", T),
+        K("c02_recv_tamper_tag15", "any rewrite of the last tag byte is dropped"),
+        K("c02_recv_other_connection", "a datagram sealed under other key material (another connection) is dropped"),
+        K("c02_recv_truncated_n8_cut1", "truncation by one byte is dropped"),
+        K("c02_recv_truncated_n8_cut8", "truncation by eight bytes is dropped", T),
+        K("c02_recv_truncated_n4_cut3", "truncation by three bytes is dropped", T),
+        K("c02_recv_truncated_n4_cut5", "truncation below the 24-byte minimum is dropped", T),
+        K("c02_recv_truncated_n8_cut24", "truncation to 8 bytes is dropped"),
     ],
 }
 
@@ -96,8 +101,8 @@ PROPS["C04"] = {
         K("c04_seal_fresh_nonce_s1_n0", "same, slot 1, empty payload"),
         K("c04_seal_fresh_nonce_s2_n16", "same, slot 2", T),
         K("c04_seal_fresh_nonce_s3_n1", "same, slot 3", T),
-        K("c04_limit56_roundtrip_s0_n4", "a counter that does not fit 56 bits is undecryptable, never wrapped; ends must be in opposite halves"),
-        K("c04_limit56_roundtrip_s3_n1", "same, slot 3", T),
+        K("c02_recv_genuine_s0_n4", "a counter that does not fit 56 bits is undecryptable, never wrapped; ends must be in opposite halves"),
+        K("c02_recv_genuine_s3_n2", "same, slot 3", T),
         K("c04_new_slot_half_and_start", "new slot: half marker as requested, bytes 1..5 zero, tail unconstrained, window zero"),
         K("c04_rotate_slot0_send", "rotate_key: slot id mod 4, own half, fresh window, becomes sending slot"),
         K("c04_rotate_slot1_recv", "rotate_key: slot 1, receive only keeps the sending slot"),
@@ -114,10 +119,71 @@ PROPS["C08"] = {
     "files": ["src/crypto/core.rs", "src/crypto/common.rs", "src/util.rs"],
     "functions": ["CryptoCore::decrypt", "CryptoCore::decrypt_with_key", "MsgBuffer window methods"],
     "bounds": "sealed-datagram path: datagram lengths 0..=26, 31, 32, 40, 48 (each its own instance; quick: 0,1,8,23,24,25,40), "
-              "all bytes symbolic, window state and AEAD verdict arbitrary, buffer start offset 0..=255",
+              "all bytes symbolic, window state and AEAD verdict arbitrary; buffer headroom 100 bytes as on the receive path",
     "outside": "handshake-marker path (InitMsg::read_from does not complete under symbolic execution); dispatch on source "
                "address in GenericCloud; sequences of datagrams; 65535-byte datagrams",
     "assumptions": RING_ASSUME,
     "obligations": [K("c08_core_decrypt_total_len%02d" % n, "CryptoCore::decrypt returns on every %d-byte datagram" % n,
                       ("quick", "thorough") if n in _c08_quick else T, role="c08_core_decrypt_total") for n in _c08_lens],
+}
+
+STD_ASSUME = [
+    "Kani 0.68 / CBMC 6.11 (cadical) and rustc's MIR are trusted; counterexamples are replayed natively before being reported",
+    "log macros are dead code at the default max level (Off)",
+]
+
+# ------------------------------------------------------------------------------------------------------------ C19
+PROPS["C19"] = {
+    "files": ["src/payload.rs", "src/types.rs"],
+    "functions": ["<Frame as Protocol>::parse", "<Packet as Protocol>::parse", "Address::read_from_fixed"],
+    "bounds": "Frame::parse: every byte string of length 0..=24 (the dissector reads at most 16 bytes); Packet::parse: every "
+              "byte string of length 0..=64 (reads at most 40); all ethertypes, tag-control values and version nibbles are "
+              "inside the symbolic bytes; compared with an independently written reference dissector",
+    "outside": "byte strings longer than 24 / 64 bytes (no code path depends on the excess); VLAN id 0 may be reported in "
+               "either the tagged or the folded form here - the folding is decided under C13",
+    "assumptions": STD_ASSUME,
+    "obligations": [
+        K("c19_frame_exact", "Frame::parse == reference dissector on all strings of length <= 24; never panics"),
+        K("c19_packet_exact", "Packet::parse == reference dissector on all strings of length <= 64; never panics"),
+    ],
+}
+
+# ------------------------------------------------------------------------------------------------------------ C13
+PROPS["C13"] = {
+    "files": ["src/payload.rs", "src/table.rs", "src/cloud.rs"],
+    "functions": ["<Frame as Protocol>::parse"],
+    "bounds": "all 20-byte frames behind ethertype 0x8100 (all 65536 tag-control values, all PCP/DEI nibbles, nested tags)",
+    "outside": "node level: flooding of unknown destinations, learning driven by GenericCloud::handle_payload_from, sequences of frames",
+    "assumptions": STD_ASSUME,
+    "obligations": [
+        K("c13_vlan_normalisation", "address = 12-bit VLAN id + MAC; PCP/DEI never matters; VLAN 0 counts as untagged; nested tags ignored"),
+    ],
+}
+
+# ------------------------------------------------------------------------------------------------------------ C11
+PROPS["C11"] = {
+    "files": ["src/types.rs", "src/table.rs"],
+    "functions": ["Range::matches"],
+    "bounds": "Range::matches: none (all bases, addresses, lengths 0..=16, prefix lengths 0..=255)",
+    "outside": "router-drops / switch-floods at node level, the statistics file",
+    "assumptions": STD_ASSUME,
+    "obligations": [
+        K("c11_matches_is_prefix_match", "Range::matches == (equal lengths and common leading bits >= prefix length), bit-by-bit reference"),
+    ],
+}
+
+# ------------------------------------------------------------------------------------------------------------ C16
+_rr = [0, 1, 4, 6, 8, 15, 16]
+_rd = [0, 1, 2, 6, 10, 17, 18, 20]
+PROPS["C16"] = {
+    "files": ["src/types.rs", "src/messages.rs", "src/crypto/rotate.rs"],
+    "functions": ["Range::write_to", "Range::read_from", "Address::read_from", "Address::read_from_fixed", "Address::write_to"],
+    "bounds": "claims (Range): address lengths {0,1,4,6,8,15,16} x all prefixes x all bytes for the round trip; decoder totality "
+              "on arbitrary byte strings of total length {0,1,2,6,10,17,18,20}",
+    "outside": "the handshake codec (InitMsg: does not complete under symbolic execution); 64 KiB stale tails",
+    "assumptions": STD_ASSUME,
+    "obligations": [K("c16_range_roundtrip_len%02d" % n, "Range encode->decode identity, %d-byte address" % n,
+                      ("quick", "thorough") if n in (0, 4, 16) else T) for n in _rr] +
+                   [K("c16_range_decode_total%02d" % n, "Range::read_from total and exact on arbitrary %d bytes" % n,
+                      ("quick", "thorough") if n in (0, 2, 6, 18) else T) for n in _rd],
 }
